@@ -118,7 +118,43 @@ def cases(tier, seed):
                 if d == 2 and (i + j) % 3 == 0:
                     modes.append('symbolic')
                 out.append(dict(kind='program', cfg=cfg, src=src, nargs=nargs, keys=keys, modes=modes))
+    # several registered functions on ONE algebra (shared name space): compile and call all, then call all again
+    pool = ['(a * 2) ^ b', '(a | b) / -2', 'a * -1 + b', '(a + 1) * b', '3 - a', '(a * 0.5) >> b', 'a.grade(1) * 2 + b', '(a ^ b) * -3', 'a / 2 + b / -2',
+            '-2 * a - b', '(a & b) + 2', 'b * 4 - a * -4', 'a ** 2 * -1', '(a - 7) | b', 'a * 7 + b * -7']
+    for cfg in cfgs:
+        d = sum(cfg.values())
+        pats_ = _patterns(d, rng)
+        for _ in range(12 if tier == 'quick' else 80):
+            srcs = rng.sample(pool, 4)
+            out.append(dict(kind='multi', cfg=cfg, srcs=srcs, keys=[list(rng.choice(pats_)), list(rng.choice(pats_))]))
     return out
+
+
+def _run_multi(desc, V):
+    alg = make_alg(desc['cfg'])
+    plain = make_alg(desc['cfg'])
+    from kingdon.multivector import MultiVector
+    a, b = mv(alg, V, 'a', desc['keys'][0]), mv(alg, V, 'b', desc['keys'][1])
+    pa = MultiVector.fromkeysvalues(plain, tuple(a.keys()), list(a.values()))
+    pb = MultiVector.fromkeysvalues(plain, tuple(b.keys()), list(b.values()))
+    regs, wants = [], []
+    claims = []
+    for i, src in enumerate(desc['srcs']):
+        f, _ = _compile(src, 2, f'multi_{i}')
+        try:
+            want = _as_coeffs(f(pa, pb))
+        except Exception:
+            regs.append(None); wants.append(None)
+            continue
+        rf = alg.register(f)
+        regs.append(rf); wants.append(want)
+        claims += eq_claims(f'first-call[{i}]', _as_coeffs(rf(a, b)), want, fkey='multi|register|first-call')
+    for i, (rf, want) in enumerate(zip(regs, wants)):
+        if rf is None:
+            continue
+        claims += eq_claims(f'second-call[{i}]', _as_coeffs(rf(a, b)), want, fkey='multi|register|call-after-other-functions-compiled')
+    claims.append(Eq('reached', 1, 1))
+    return claims
 
 
 def _patterns(d, rng):
@@ -154,6 +190,8 @@ def _as_coeffs(x):
 
 
 def run_case(desc, V):
+    if desc['kind'] == 'multi':
+        return _run_multi(desc, V)
     src, nargs = desc['src'], desc['nargs']
     name = 'f_' + format(abs(hash(src)) % (10 ** 8), 'd')
     claims = []
